@@ -61,6 +61,16 @@ fn gen_phased(rng: &mut Rng, i: u64) -> Value {
 
 impl Driver for HubSeq {
     fn gen(&self, rng: &mut Rng, i: u64) -> Value {
+        if i % 499 == 7 {
+            // one claimant collects claims in more than a hundred batches before withdrawing (bounds and paging limits in the withdraw path)
+            let mut ops = vec![json!({"op": "bond", "who": 1, "amt": "1000000"}), json!({"op": "bond", "who": 0, "amt": "1000"})];
+            let k = 100 + rng.next() % 8;
+            for _ in 0..k { ops.push(json!({"op": "unbond_bsei", "who": 1, "units": 1 + rng.next() % 3})); ops.push(json!({"op": "wait", "dt": 31})); }
+            ops.push(json!({"op": "unbond_bsei", "who": 0, "units": 10})); ops.push(json!({"op": "wait", "dt": 31})); ops.push(json!({"op": "unbond_bsei", "who": 0, "units": 1}));
+            ops.push(json!({"op": "wait", "dt": 1001}));
+            for w in [1u64, 1, 0, 1] { ops.push(json!({"op": "withdraw", "who": w})); }
+            return json!({"ops": ops, "fee": "0", "threshold": E18.to_string(), "validators": 2});
+        }
         if i % 2 == 1 { return gen_phased(rng, i); }
         let n = 6 + rng.next() % 20;
         let cap: u128 = if i % 4 == 0 { 1_000_000_000_000 } else if i % 4 == 1 { 40 } else { 100_000 };
